@@ -29,16 +29,16 @@ CHAIN_LOOPS = ["parsec_hash_table_nolock_find_in_old_tables.1", "parsec_hash_tab
                "parsec_hash_table_nolock_remove_handle.0", "parsec_hash_table_nolock_find_handle.0", "parsec_hash_table_for_all.2"]
 
 
-def map_job(op, ng, nb0, ni=3, timeout=900):
+def map_job(op, ng, nb0, ni=3, timeout=900, env_pre=0):
     top = 1 << (nb0 + ng)            # buckets of a generation created by the call
     us = {l: ni + 2 for l in CHAIN_LOOPS}
-    return Job("%s.g%d.b%d%s" % (op, ng, nb0, "" if ni == 3 else ".i%d" % ni), "h_ht.c", entry="harness",
-               defines={"OP": OPS[op], "NG": ng, "NB0": nb0, "NI": ni}, overlay=REHASH_OVERLAY,
+    return Job("%s%s.g%d.b%d%s" % (op, ".pre_resize" if env_pre else "", ng, nb0, "" if ni == 3 else ".i%d" % ni), "h_ht.c", entry="harness",
+               defines={"OP": OPS[op], "NG": ng, "NB0": nb0, "NI": ni, "ENV_PRE": env_pre}, overlay=REHASH_OVERLAY,
                unwind=top + 1, unwindset=us, object_bits=10,
                bounded="pre-state = every well-formed table with exactly %d generation(s) of %s buckets and <= %d items "
                        "(keys, 64-bit hashes, bucket function, placement, hint, max_table_nb_bits symbolic)"
                        % (ng, "/".join(str(1 << (nb0 + g)) for g in range(ng)), ni),
-               functions=FUNCS[op], timeout=timeout, mem_gb=6, min_obligations=12, replay=True)
+               functions=FUNCS[op], timeout=timeout, mem_gb=(3 if ng == 1 else 6), min_obligations=12, replay=True)
 
 
 def jobs(tier):
@@ -60,6 +60,12 @@ def jobs(tier):
             if ng == 3:
                 j.mem_gb = 10
             J.append(j)
+    # rely step "another thread runs the real resize" at my read-lock acquisition (ENV_PRE): whatever the operation read
+    # from the table before it holds the read lock is stale; the first bucket lock must be the one of the key's bucket
+    # in the generation that is current under the read lock
+    for op in ("find", "remove", "insert_impl", "nolock_handle", "nolock_key"):
+        for ng, nb0 in ([(1, 1), (2, 1)] if full and not op.startswith("nolock") else [(1, 1)]):
+            J.append(map_job(op, ng, nb0, timeout=to, env_pre=1))
     for nb in ((1, 2) if full else (1,)):
         J.append(Job("init.b%d" % nb, "h_ht.c", entry="h_init", defines={"NB0": nb, "NG": 1, "NI": 3}, overlay=REHASH_OVERLAY,
                      unwind=(1 << (nb + 1)) + 1, unwindset={l: 5 for l in CHAIN_LOOPS}, object_bits=10,
@@ -93,7 +99,7 @@ META = dict(
                 "the read lock, first_item/cur_len of a bucket are unchanged when its lock is taken and after it is released (i.e. buckets, old "
                 "generations included, are modified only under their own lock), nolock_* return holding exactly the caller's read lock and newest "
                 "bucket lock, every public call returns with all locks released, rw_hash changes only inside a write section, and when another "
-                "thread resizes between my rdunlock and my wrlock (jobs *_env: the real resize run as environment step) no second generation is added.",
+                "thread resizes between my rdunlock and my wrlock (jobs *_env: the real resize run as environment step) no second generation is added; when another thread resizes just before my read lock is granted (jobs *.pre_resize) the first bucket lock taken is still the lock of the key's bucket in the generation that is current under the read lock, and all contracts above hold in the enlarged table.",
     trusted_base=["parsec_atomic_rwlock_rdlock/rdunlock/wrlock/wrunlock are ghost stubs (counters + discipline assertions); the real rwlock is C33",
                   "parsec_atomic_lock on a bucket = assume(free); take (verif_rg.h): blocked executions are not explored",
                   "user key functions: key_hash = arbitrary function of the key (table), key_equal = equality of the 64-bit keys "
@@ -109,8 +115,11 @@ META = dict(
     assumptions=["concurrent linearizability is NOT mechanised: it is argued from the discharged lock discipline (every access to a bucket happens "
                  "under that bucket's lock and the table read lock, resize is exclusive under the write lock, so each operation takes effect "
                  "atomically with respect to the buckets it touches) plus mutual exclusion of the locks (C33)",
-                 "interference is modelled only at one point: another thread's resize between my rdunlock and wrlock; concurrent unlinking of old "
-                 "generations (CAS on head->next by two threads emptying different old generations) is not examined",
+                 "interference = the rely step 'another thread runs the real resize' at every point where I do not hold the table lock: at each "
+                 "read-lock acquisition (jobs *.pre_resize: anything read from the table before the read lock is held is stale) and between my "
+                 "rdunlock and wrlock (jobs *_env); what other threads did before the call is covered by the arbitrary wf pre-state; interference "
+                 "WHILE I hold the read lock (other readers working on other buckets, concurrent unlinking of old generations by CAS on "
+                 "head->next) is not examined",
                  "callers insert a key only when it is absent (unique keys) and nolock_* are called between lock_bucket(_handle) and unlock of the same key",
                  "shape bound: <= 3 items (quick: 2 items in find/remove with 2 generations), generations of 2..16 buckets; find/remove/nolock_*/for_all from tables of 1 or 2 generations, insert_impl/resize also from 3 generations (thorough); chains <= 3",
                  "parsec_hash_tables_init succeeded before parsec_hash_table_init (otherwise max_collisions_hint / max_table_nb_bits stay uninitialised)"],
@@ -122,8 +131,8 @@ MANIFEST = dict(
          "function and 64-bit hashes arbitrary, hint and max bits symbolic): sequential map semantics of insert/find/remove/nolock_*/resize/"
          "for_all/init including migration from older generations; unbounded in history length, bounded in shape, concurrency only through the "
          "lock discipline -> 'other', not 'proof'.",
-    note="Not decided: linearizability under real interleavings (argued from the lock discipline; rwlock is C33; only 'another thread resized "
-         "first' is modelled as interference); concurrent unlinking of emptied generations; tables with more than 3 items / 16 buckets; find/remove (migration, unlinking) across MORE THAN ONE old generation "
+    note="Not decided: linearizability under real interleavings (argued from the lock discipline; rwlock is C33; only 'another thread resized' at my lock "
+         "acquisitions is modelled as interference); concurrent unlinking of emptied generations; tables with more than 3 items / 16 buckets; find/remove (migration, unlinking) across MORE THAN ONE old generation "
          "(3-generation jobs exceed the time/memory budget); 1..16 threads are not enumerated (rely/guarantee style, one thread + environment); fini and stat are not under contract; "
          "universal_rehash is abstracted by its contract (range proved, functionality by inspection).",
     technique="inductive data-structure invariant + pre/post contracts + ghost lock discipline on the real parsec_hash_table.c, discharged by "
